@@ -1,5 +1,7 @@
+import MypyVerif.Gen.FoldCfg
 /-
-Model of constant folding — hand-written, import-free, executable.
+Model of constant folding — hand-written, executable; imports only the generated constants of
+`Gen/FoldCfg.lean` (translate/c12fold.py: observed dispatch facts of the folder under check).
 
   mypy/constant_fold.py          constant_fold_binary_op      ↦ `foldBinOp`
                                  constant_fold_binary_int_op  ↦ `foldBinInt`
@@ -270,7 +272,8 @@ def foldBin (ext : Bool) (op : Op) (l r : Val) : Option Res :=
     | _, _, _ => none
   else foldBinOp op l r
 
-/-- `constant_fold_unary_op(op, value)`.  Note the `+` branch returns `value` itself. -/
+/-- `constant_fold_unary_op(op, value)`.  The `+` branch is `return value` in the code as found (the
+    bool operand itself, F25: `Cfg.unaryPlusOnBoolKeepsBool = true`) and `return +value` once repaired. -/
 def foldUnary (op : UOp) (v : Val) : Option Res :=
   match op, v with
   | .neg, .int i => some (.val (.int (-i)))
@@ -278,7 +281,7 @@ def foldUnary (op : UOp) (v : Val) : Option Res :=
   | .inv, .int i => some (.val (.int (bnot i)))
   | .inv, .bool b => some (.val (.int (bnot (b2i b))))
   | .pos, .int i => some (.val (.int i))
-  | .pos, .bool b => some (.val (.bool b))        -- `return value`, not `+value`
+  | .pos, .bool b => if Cfg.unaryPlusOnBoolKeepsBool then some (.val (.bool b)) else some (.val (.int (b2i b)))
   | _, _ => none
 
 /-- mypyc's `constant_fold_expr` refuses unary operators on bytes before calling `foldUnary` -/
